@@ -83,6 +83,9 @@ pub struct ValCase {
   pub tokens: Vec<TokVar>,
   pub footer: Option<String>,
   pub assertion: Option<String>,
+  /// register odd-numbered validators with check_claim + extend_validation_claims (generic parser only)
+  #[serde(default)]
+  pub via_extend: bool,
 }
 
 pub struct Validators {
@@ -195,8 +198,14 @@ impl Sub for Validators {
     if let Some(a) = assertion {
       parser.assertion(a);
     }
-    for ((id, _, _), spec) in vals.iter().zip(claim_specs.iter()) {
-      if parser.validate(spec, VALIDATORS[*id]).is_err() {
+    for ((id, k, _), spec) in vals.iter().zip(claim_specs.iter()) {
+      if c.via_extend && id % 2 == 1 && c.layer == Layer::Generic {
+        // the other public way: the claim is checked, its validator arrives through extend_validation_claims
+        if parser.check(spec).is_err() || !parser.extend_validators(&[(k.clone(), VALIDATORS[*id])]) {
+          return Verdict::Discard;
+        }
+        cl.tag("registered-via-extend_validation_claims");
+      } else if parser.validate(spec, VALIDATORS[*id]).is_err() {
         return Verdict::Discard;
       }
     }
@@ -327,8 +336,8 @@ fn case(proto: Proto, layer: Layer) -> BoxedStrategy<ValCase> {
     }
     out
   });
-  (gen::bytes32(), vec((0u8..11, 0u8..5), 0..5), toks, prop_oneof![Just(None), gen::jsonish(6).prop_map(Some)], prop_oneof![Just(None), gen::jsonish(6).prop_map(Some)])
-    .prop_map(move |(seed, validators, tokens, footer, assertion)| ValCase { proto, layer, seed, validators, tokens, footer, assertion })
+  (gen::bytes32(), vec((0u8..11, 0u8..5), 0..5), toks, prop_oneof![Just(None), gen::jsonish(6).prop_map(Some)], prop_oneof![Just(None), gen::jsonish(6).prop_map(Some)], any::<bool>())
+    .prop_map(move |(seed, validators, tokens, footer, assertion, via_extend)| ValCase { proto, layer, seed, validators, tokens, footer, assertion, via_extend })
     .boxed()
 }
 
